@@ -51,7 +51,7 @@ CHECKS = {
          "Seeded search over fault schedules; monitors compare every outgoing vote grant / append acknowledgement with what the sender's log store holds durably at that instant, every applied (group,index) digest across replicas and incarnations, durable term/commit/committed entries across restarts; after faults stop all replicas must converge within 120 simulated seconds and accept writes.",
          "Scheduling owned at hook/RPC/yield granularity; Badger durability trusted; durable state read through the product's own log-store reader (validated by C06)."),
  "C09": ("exploration", "DESIGN.md §3 C09, §2.5 World III",
-         "deterministic simulation of a cluster of real servers: the simulated network records every SearchPartitions leg of each Dataset.Search; seeded yields and select order at the fan-out/fan-in channel operations, crashed node / blocked link / response loss as faults; oracle: success implies every partition searched exactly once and result = k best of the union of the legs, each leg = merge of direct index searches, any failed leg implies an error",
+         "deterministic simulation of a cluster of real servers: the simulated network records every SearchPartitions leg of each Dataset.Search; seeded yields and select order at the fan-out/fan-in channel operations, crashed node / blocked link / response loss as faults; oracle: success implies every partition searched exactly once and result = k best of the union of the legs, each leg = merge of direct index searches, any failed leg implies an error. A second leg runs the same scenarios in a worker built with -race and reports data races whose two accesses both lie inside the operation itself (DESIGN 2.10).",
          "Seeded search over placements (1..8 partitions, 1..3 replicas, 1..4 nodes), k, completion orders (yield probability, seeded select) and failing nodes; the oracle is computed from what the answering replicas actually returned.",
          "Interleavings owned at yield-point / RPC granularity, not per instruction."),
  "C10": ("exploration", "DESIGN.md §3 C10, §2.5 World III",
@@ -59,11 +59,11 @@ CHECKS = {
          "Seeded search over partition counts 1..8, entry nodes, API paths and restarts; every outcome must equal a sequential map and every id must live in exactly one partition. The arithmetic claim over all 2^128 ids and moduli up to 1024 is a pure function and only sampled through the ids used.",
          "Multi-node half of the property; fault-free by construction."),
  "C11": ("exploration", "DESIGN.md §3 C11, §2.5 World III",
-         "deterministic simulation of a cluster with four modes: fault-free exact outcomes and batch error maps vs a sequential map; proposers paused between Propose and their wait (hook H5); overlapping callers checked with a porcupine register model; message faults, crash/isolation and removal of the owner from the address book with the oracle 'acknowledged success implies applied on a surviving replica'",
+         "deterministic simulation of a cluster with four modes: fault-free exact outcomes and batch error maps vs a sequential map; proposers paused between Propose and their wait (hook H5); overlapping callers checked with a porcupine register model; message faults, crash/isolation and removal of the owner from the address book with the oracle 'acknowledged success implies applied on a surviving replica'. A second leg runs the same scenarios in a worker built with -race and reports data races whose two accesses both lie inside the operation itself (DESIGN 2.10).",
          "Seeded search over caller interleavings, API paths, wrong-dimension items, pause timing and unreachable-owner situations; a success must be applied, a wrong dimension must be rejected without effect, fault-free calls must get their own outcome.",
          "A write whose acknowledgement was lost is indeterminate; forwarded proposals are never duplicated by the simulated network (gRPC does not duplicate requests)."),
  "C17": ("exploration", "DESIGN.md §3 C17, §2.5 World III",
-         "deterministic simulation of a cluster: partitions with different sizes, SizeInfo asked on every node under seeded yields at the goroutine starts of the lookup loop, crashed node / blocked link as faults; oracle: success implies len = sum over partitions (each once) and bytes within the range the replicas report, a failed lookup implies an error",
+         "deterministic simulation of a cluster: partitions with different sizes, SizeInfo asked on every node under seeded yields at the goroutine starts of the lookup loop, crashed node / blocked link as faults; oracle: success implies len = sum over partitions (each once) and bytes within the range the replicas report, a failed lookup implies an error. A second leg runs the same scenarios in a worker built with -race and reports data races whose two accesses both lie inside the operation itself (DESIGN 2.10).",
          "Seeded search over placements, sizes, completion orders and failing lookups; expected sums are read from the partitions themselves at a quiescent instant.",
          "Byte sizes may differ between replicas of one partition (entry point level), so the byte sum is checked against the [min,max] range."),
  "C14": ("exploration", "DESIGN.md §3 C14, §2.5 World III",
